@@ -13,7 +13,7 @@ MANIFEST = dict(
          "otherwise executed and the trigger asked with the scheduled fire time), no drift along any run without re-scheduling (each on-time "
          "call's prev is the latest fire time returned for the job), every priority in the queue is a result of the job's own trigger or "
          "MaxInt64 while paused, a trigger error removes the job which is executed iff it was on time, the first priority is "
-         "NextFireTime(clock at ScheduleJob); run-once is proved for the fetch step (partial). The branch table of validateJob with its "
+         "NextFireTime(clock at ScheduleJob); a job driven by a fresh RunOnceTrigger is dequeued as valid at most once over any run without foreign writers (counting invariant) and exactly then when it is on time. The branch table of validateJob with its "
          "operators, extractors and the non-blocking misfire offer is regenerated from the source on every run. Tie: single-step "
          "correspondence with margin-placed fire times and MisfiredChan nil/0/1/64, and free-running schedulers whose recording triggers "
          "must show chained prevs except after a misfire that was later than the threshold.",
@@ -32,9 +32,8 @@ def run(ctx):
                        "trigger's calls must chain (prev = previous fire time) or be a clock reading justified by ScheduleJob/ResumeJob in "
                        "progress or by a pending fire time more than the threshold late; misfire deliveries must equal misfire re-bases",
         sc.COMMON_ASSUMPTIONS,
-        "run_once_once is proved for the fetch step only (see Props/C04.v); that a job scheduled with a fresh RunOnceTrigger is executed at "
-        "most once over a whole run is observed (step traces with RunOnceTrigger, free runs with a run-once job), not proved; real-time "
-        "lateness of the loop is observed, not proved")
+        "real-time lateness of the loop (how often the misfire branch is taken) is observed, not proved; delivery on MisfiredChan depends on "
+        "the channel's capacity (the model records the non-blocking offer)")
 
 
 def replay(ctx, path):
